@@ -4,6 +4,7 @@ A *spec* is what the harness passes around and records as a replay: plain JSON s
     {"b": hex}            bytes
     {"io": hex}           a caller-supplied BytesIO over these bytes
     {"ba": hex}           a bytearray
+    {"mv": hex} {"mvw": hex}   a memoryview over bytes (read-only) / over a bytearray (writable)
     {"l": [...]} {"t": [...]}   list / tuple of specs
     {"d": [[k, v], ...]}  dict of specs
     {"deep": [kind, depth, leaf]}   kind 'list' | 'dict': nesting built iteratively at call time
@@ -75,6 +76,10 @@ def materialize(s):
             return BytesIO(bytes.fromhex(s["io"]))
         if "ba" in s:
             return bytearray(bytes.fromhex(s["ba"]))
+        if "mv" in s:                       # read-only memoryview
+            return memoryview(bytes.fromhex(s["mv"]))
+        if "mvw" in s:                      # memoryview over a writable buffer
+            return memoryview(bytearray(bytes.fromhex(s["mvw"])))
         if "l" in s:
             return [materialize(x) for x in s["l"]]
         if "t" in s:
